@@ -648,6 +648,14 @@ func TestC08(t *testing.T) {
 				rt.Fatalf("C08 violated by %v after the same operator instance served %v: %s", c, other, d)
 			}
 		}
+		if len(c.ins) >= 2 && rapid.IntRange(0, 5).Draw(rt, "sharedParams") == 0 {
+			if od, ok := otherDataLike(rt, c.ins[0]); ok {
+				ev.Class("C08", "instance-and-parameter-tensors-served-another-data-tensor")
+				if d := reuseSharedParams(c.op, c.node, od, c.inputs()); d != "" {
+					rt.Fatalf("C08 violated by %v: %s", c, d)
+				}
+			}
+		}
 		if _, enc := onnxTypeOf[c.ins[0].Dtype()]; enc && rapid.IntRange(0, 4).Draw(rt, "modelLevel") == 0 {
 			mres := runSingleNodeModel(c.node, c.inputs(), 1)
 			ev.Class("C08", "model-level")
